@@ -60,6 +60,9 @@ def strategy_(draw, tier):
     case["choices"] = draw(schedule())
     case["kind"] = "sim"
     case["via"] = draw(st.sampled_from(["api", "api", "api", "cli"]))
+    if draw(st.integers(0, 3)) == 0:
+        # all workers descheduled (or one slow alignment): up to 150 consecutive empty polls, starting at a drawn poll
+        case["stall"] = [draw(st.integers(1, 12)), draw(st.sampled_from([5, 45, 130, 150]))]
     return case
 
 
@@ -112,7 +115,7 @@ def run_case(case):
             res, text = rc.run_realign(case, d, platform=None, sub="real.gaf")
             check_output(case, res, text, ref, "real processes, cores=%d batch=%d" % (case["cores"], case["batch"]))
             return core.Result(case["cores"] >= 2, ["real_processes", "cores=%d" % case["cores"]])
-        plat = fakemp.Platform(fakemp.Chooser(case["choices"]))
+        plat = fakemp.Platform(fakemp.Chooser(case["choices"]), stall=case.get("stall"))
         res, text = rc.run_realign(case, d, platform=plat, sub="sim.gaf", via=case.get("via", "api"))
         check_output(case, res, text, ref, "cores=%d batch=%d schedule=%s" % (case["cores"], case["batch"], case["choices"][:40]))
     nrec = len(case["gaf"])
@@ -127,6 +130,8 @@ def run_case(case):
         cl.append("worker_finishes_between_timeout_and_liveness_check")
     if groups >= 3:
         cl.append("process_groups>=2")
+    if plat.stalled_polls >= 40:
+        cl.append("stall_of_40+_polls")
     nontrivial = plat.timeouts_in_flight >= 1 and (min(case["cores"], nworkers) >= 2 or groups >= 3)
     return core.Result(nontrivial, cl)
 
